@@ -116,6 +116,10 @@ stale_query!(hull_stale_find_nearest, |h, t, p, _f| { let r = h.find_nearest_vis
 stale_query!(hull_stale_facet_visible, |h, t, p, f| { let r = h.is_facet_visible_from_point(f, p, t); let s = matches!(&r, Err(ConvexHullConstructionError::StaleHull { .. })); core::mem::forget(r); s }, _,
     "OBL stale-facet-visible: is_facet_visible_from_point() on a stale hull reports StaleHull instead of an answer");
 
+stale_query!(@concrete hull_stale_validate_c56, |h, t, _p, _f| { let r = h.validate(t); let s = matches!(&r, Err(ConvexHullValidationError::StaleHull { .. })); core::mem::forget(r); s },
+    "OBL stale-validate: validate() on a hull whose triangulation changed reports StaleHull", 5, 6);
+stale_query!(@concrete hull_stale_validate_c65, |h, t, _p, _f| { let r = h.validate(t); let s = matches!(&r, Err(ConvexHullValidationError::StaleHull { .. })); core::mem::forget(r); s },
+    "OBL stale-validate: validate() on a hull whose triangulation changed reports StaleHull", 6, 5);
 stale_query!(@concrete hull_stale_is_point_outside_c56, |h, t, p, _f| { let r = h.is_point_outside(p, t); let s = matches!(&r, Err(ConvexHullConstructionError::StaleHull { .. })); core::mem::forget(r); s },
     "OBL stale-is-point-outside: is_point_outside() on a stale hull reports StaleHull instead of an answer", 5, 6);
 stale_query!(@concrete hull_stale_is_point_outside_c65, |h, t, p, _f| { let r = h.is_point_outside(p, t); let s = matches!(&r, Err(ConvexHullConstructionError::StaleHull { .. })); core::mem::forget(r); s },
